@@ -629,6 +629,8 @@ DEPS = {
     "C01": [(_CONSTANTS, "the gravitational parameter every conversion reads (`body.µ`) comes from these Body objects")],
     "C02": [(_DATE_ARGS, "the argument of every rotation: julian centuries and days of the date in the scale the model asks for"),
             (_NODE, "the path search between orientations"),
+            (("beyond/orbits/ephem.py", ["Ephem.propagate", "Ephem.interpolate", "Ephem.interp", "Ephem._reset_interp"]), "an orbit-attached frame follows its reference: an Ephem reference is interpolated at the date of the state"),
+            (("beyond/utils/interp.py", ["*"]), "an orbit-attached frame follows its reference: an Ephem reference is interpolated at the date of the state"),
             (_MEMOIZE, "the IAU tables and the nutation are memoised by this decorator, keyed by `str(args) + str(kwargs)`"),
             (_DATE_KEY, "the text of a Date is the memo key of `nutation(date, ...)`: two instants must never print alike"),
             (_SV_CONVERT, "`sv.frame = x` / `copy(frame=x)` is the conversion: to cartesian, rotate and translate, back to the original form"),
@@ -690,7 +692,8 @@ DEPS = {
             (_DATE_PRINT, "every epoch of a message is printed with `Date.__format__` (KVN) or `Date.strftime` (XML)"),
             (("beyond/frames/frames.py", ["Frame.__str__", "Frame.__init__", "get_frame", "<module>#dynamic"]), "`COV_REF_FRAME = {frame}` prints a Frame; the readers look names up with `get_frame`")],
     "C14": [(_FORMS, "the covariance builds its local frames from a cartesian copy of the state"),
-            (("beyond/frames/frames.py", ["Frame.transform", "get_frame"]), "the rotation applied to the covariance")],
+            (("beyond/frames/frames.py", ["Frame.transform", "get_frame"]), "the rotation applied to the covariance")] + [
+            (x, "the rotation between inertial and Earth-fixed axes comes from these models; it must be a function of the date alone (wave k: X, Y, s reused for any date within ten minutes of the previous call)") for x in _EARTH_ROTATION],
     "C15": [(_FORMS, "names and aliases are resolved through `Form.alt` and the forms' parameter lists"),
             (("beyond/frames/center.py", ["*"]), "`copy(frame=...)` runs the centre chain with the registered reference states as offsets: it must leave them alone"),
             (("beyond/frames/orient.py", ["Orientation.convert_to", "*._to_parent", "*.__init__"]), "`copy(frame=...)` runs the orientation chain with the registered reference states")],
@@ -699,7 +702,8 @@ DEPS = {
             (_SV_CONVERT, "the propagated state is a copy of the initial one (it carries the propagator and the frame)"),
             (_INFOS, "`ClohessyWiltshire.from_orbit` takes the semi-major axis of the target from `orbit.infos.kep.a`")],
     "C17": [(("beyond/orbits/statevector.py", ["Infos.*", "StateVector.infos", "StateVector.copy", "StateVector.frame:setter", "StateVector.form:setter"]),
-             "`dkep2dv` reads speed, mean motion and flight-path quantities from `orb.infos`")],
+             "`dkep2dv` reads speed, mean motion and flight-path quantities from `orb.infos`"),
+            (_DATE_ARITH, "the once-only windows of the maneuvers are Date comparisons: `<` and `<=` must be complementary (wave k: a tolerance in `__le__` / `__ge__` only)")],
     "C18": [(_DATE_ARGS, "the kernels and the analytical series are evaluated at the date in TDB / TT"),
             (_NODE, "the path search between centres"),
             (_SV_CONVERT, "`copy(frame=...)` is how a state changes centre"),
